@@ -16,6 +16,24 @@ use clarabel::verif_hooks::cones::{Cone, PrimalOrDualCone};
 use clarabel::verif_hooks::core::{ScalingStrategy, Solver, StepDirection};
 use clarabel::algebra::CscMatrix;
 
+/// Settings as seen by the generic solver: `core()` hands out a copy whose `max_iter` is POISONED (an
+/// arbitrary value unrelated to the real budget); only the termination check (and post-processing)
+/// receive the real settings.  If anything in the main loop other than the termination check read
+/// the iteration budget, its behaviour would follow the poison and break the assertions below
+/// (C07: the k-th iterate does not depend on the budget).
+pub struct SSet {
+    real: DefaultSettings<f64>,
+    poisoned: DefaultSettings<f64>,
+}
+impl Settings<f64> for SSet {
+    fn core(&self) -> &CoreSettings<f64> {
+        &self.poisoned
+    }
+    fn core_mut(&mut self) -> &mut CoreSettings<f64> {
+        &mut self.poisoned
+    }
+}
+
 pub struct SD;
 pub struct SV;
 pub struct SR;
@@ -43,42 +61,62 @@ pub struct SI {
 impl ProblemData<f64> for SD {
     type V = SV;
     type C = SC;
-    type SE = DefaultSettings<f64>;
-    fn equilibrate(&mut self, _c: &SC, _s: &DefaultSettings<f64>) {}
+    type SE = SSet;
+    fn equilibrate(&mut self, _c: &SC, _s: &SSet) {}
 }
 
 static mut BARRIER_CALLS: u32 = 0;
+static mut LAST_BARRIER_ALPHA: u64 = 0; // bits of the step length last evaluated by the barrier
+static mut LAST_BARRIER_OK: bool = false;
+static mut BARRIER_EVER: bool = false;
+static mut STEP_NOT_BARRIER_CHECKED: bool = false;
+static mut NEEDS_BARRIER: bool = false; // nonsymmetric cones (a Dual-scaling combined step must pass the barrier test)
 
 impl Variables<f64> for SV {
     type D = SD;
     type R = SR;
     type C = SC;
-    type SE = DefaultSettings<f64>;
+    type SE = SSet;
     fn calc_mu(&mut self, _r: &SR, _c: &SC) -> f64 {
         kani::any()
     }
     fn affine_step_rhs(&mut self, _r: &SR, _v: &Self, _c: &SC) {}
     fn combined_step_rhs(&mut self, _r: &SR, _v: &Self, _c: &mut SC, _s: &mut Self, _σ: f64, _μ: f64, _m: f64) {}
-    fn calc_step_length(&self, _s: &Self, _c: &mut SC, _se: &DefaultSettings<f64>, _d: StepDirection) -> f64 {
+    fn calc_step_length(&self, _s: &Self, _c: &mut SC, _se: &SSet, _d: StepDirection) -> f64 {
         kani::any()
     }
-    fn add_step(&mut self, _s: &Self, _α: f64) {}
+    fn add_step(&mut self, _s: &Self, α: f64) {
+        // ghost: once the dual-scaling strategy is in force (which is when the barrier is first consulted)
+        // every step that is taken must be the one last accepted by the barrier test
+        unsafe {
+            if NEEDS_BARRIER && BARRIER_EVER && !(LAST_BARRIER_OK && LAST_BARRIER_ALPHA == α.to_bits()) {
+                STEP_NOT_BARRIER_CHECKED = true;
+            }
+        }
+    }
     fn symmetric_initialization(&mut self, _c: &mut SC) {}
     fn unit_initialization(&mut self, _c: &SC) {}
     fn copy_from(&mut self, _s: &Self) {}
     fn scale_cones(&self, _c: &mut SC, _μ: f64, _s: ScalingStrategy) -> bool {
         kani::any()
     }
-    fn barrier(&self, _s: &Self, _α: f64, _c: &mut SC) -> f64 {
+    fn barrier(&self, _s: &Self, α: f64, _c: &mut SC) -> f64 {
         // arbitrary barrier value, but accepted (< 1) at the latest on the 3rd evaluation of a search:
         // the 50-step bound of backtrack_step_to_barrier is a literal of the code, cut here to 3
-        unsafe {
+        let v: f64 = unsafe {
             BARRIER_CALLS += 1;
             if BARRIER_CALLS % 3 == 0 {
-                return 0.0;
+                0.0
+            } else {
+                kani::any()
             }
+        };
+        unsafe {
+            BARRIER_EVER = true;
+            LAST_BARRIER_ALPHA = α.to_bits();
+            LAST_BARRIER_OK = v < 1.0;
         }
-        kani::any()
+        v
     }
     fn rescale(&mut self) {}
 }
@@ -93,14 +131,14 @@ impl KKTSystem<f64> for SK {
     type D = SD;
     type V = SV;
     type C = SC;
-    type SE = DefaultSettings<f64>;
-    fn update(&mut self, _d: &SD, _c: &SC, _s: &DefaultSettings<f64>) -> bool {
+    type SE = SSet;
+    fn update(&mut self, _d: &SD, _c: &SC, _s: &SSet) -> bool {
         kani::any()
     }
-    fn solve(&mut self, _l: &mut SV, _r: &SV, _d: &SD, _v: &SV, _c: &mut SC, _sd: StepDirection, _s: &DefaultSettings<f64>) -> bool {
+    fn solve(&mut self, _l: &mut SV, _r: &SV, _d: &SD, _v: &SV, _c: &mut SC, _sd: StepDirection, _s: &SSet) -> bool {
         kani::any()
     }
-    fn solve_initial_point(&mut self, _v: &mut SV, _d: &SD, _s: &DefaultSettings<f64>) -> bool {
+    fn solve_initial_point(&mut self, _v: &mut SV, _d: &SD, _s: &SSet) -> bool {
         kani::any()
     }
 }
@@ -152,20 +190,20 @@ impl Cone<f64> for SC {
 impl InfoPrint<f64> for SI {
     type D = SD;
     type C = SC;
-    type SE = DefaultSettings<f64>;
+    type SE = SSet;
     fn print_target(&mut self) -> &mut dyn std::io::Write {
         &mut self.sink
     }
-    fn print_configuration(&mut self, _s: &DefaultSettings<f64>, _d: &SD, _c: &SC) -> std::io::Result<()> {
+    fn print_configuration(&mut self, _s: &SSet, _d: &SD, _c: &SC) -> std::io::Result<()> {
         Ok(())
     }
-    fn print_status_header(&mut self, _s: &DefaultSettings<f64>) -> std::io::Result<()> {
+    fn print_status_header(&mut self, _s: &SSet) -> std::io::Result<()> {
         Ok(())
     }
-    fn print_status(&mut self, _s: &DefaultSettings<f64>) -> std::io::Result<()> {
+    fn print_status(&mut self, _s: &SSet) -> std::io::Result<()> {
         Ok(())
     }
-    fn print_footer(&mut self, _s: &DefaultSettings<f64>) -> std::io::Result<()> {
+    fn print_footer(&mut self, _s: &SSet) -> std::io::Result<()> {
         Ok(())
     }
 }
@@ -176,8 +214,8 @@ impl Info<f64> for SI {
     fn reset(&mut self, timers: &mut Timers) {
         self.real.reset(timers); // REAL
     }
-    fn post_process(&mut self, _r: &SR, s: &DefaultSettings<f64>) {
-        self.real.post_process(&self.res, s); // REAL
+    fn post_process(&mut self, _r: &SR, s: &SSet) {
+        self.real.post_process(&self.res, &s.real); // REAL
     }
     fn finalize(&mut self, _t: &mut Timers) {}
     fn update(&mut self, _d: &mut SD, _v: &SV, _r: &SR, _t: &Timers) {
@@ -197,7 +235,7 @@ impl Info<f64> for SI {
         let sc: [f64; 5] = kani::any();
         dh::residuals_set_scalars(&mut self.res, sc);
     }
-    fn check_termination(&mut self, _r: &SR, s: &DefaultSettings<f64>, iter: u32) -> bool {
+    fn check_termination(&mut self, _r: &SR, s: &SSet, iter: u32) -> bool {
         if self.real.status != SolverStatus::Unsolved {
             self.entered_not_unsolved = true;
         }
@@ -205,7 +243,7 @@ impl Info<f64> for SI {
             self.checks_after_overtime += 1;
         }
         self.checks += 1;
-        let r = self.real.check_termination(&self.res, s, iter); // REAL
+        let r = self.real.check_termination(&self.res, &s.real, iter); // REAL
         // the limit is exceeded on the user's stopwatch (not only on the possibly stale reported time)
         if (true_elapsed() as f64) > self.time_limit {
             self.overtime_seen = true;
@@ -233,8 +271,8 @@ impl Solution<f64> for SS {
     type D = SD;
     type V = SV;
     type I = SI;
-    type SE = DefaultSettings<f64>;
-    fn post_process(&mut self, _d: &SD, _v: &mut SV, _i: &SI, _s: &DefaultSettings<f64>) {}
+    type SE = SSet;
+    fn post_process(&mut self, _d: &SD, _v: &mut SV, _i: &SI, _s: &SSet) {}
     fn finalize(&mut self, _i: &SI) {}
 }
 
@@ -320,6 +358,12 @@ fn run_loop(max_iter_bound: u32, symmetric: bool, pd_scaling: bool) {
     settings.verbose = false;
     let time_limit = settings.time_limit;
     let max_iter = settings.max_iter;
+    let mut poisoned = settings.clone();
+    poisoned.max_iter = kani::any();
+    let settings = SSet { real: settings, poisoned };
+    unsafe {
+        NEEDS_BARRIER = !symmetric;
+    }
     let mut real = dh::info_new_sink::<f64>();
     real.status = crate::verdict::any_status(); // whatever a previous solve left behind
     real.iterations = kani::any();
@@ -364,6 +408,7 @@ fn run_loop(max_iter_bound: u32, symmetric: bool, pd_scaling: bool) {
         assert!(!symmetric && pd_scaling, "a_second_pass_after_the_time_limit_only_through_the_scaling_strategy_switch");
     }
     assert!(solver.timers.is_some(), "timers_returned_to_the_solver");
+    assert!(unsafe { !STEP_NOT_BARRIER_CHECKED }, "under_dual_scaling_every_step_taken_was_accepted_by_the_barrier_test_(independent_of_the_budget)");
     kani::cover!(st == SolverStatus::MaxIterations, "MaxIterations");
     kani::cover!(st == SolverStatus::Solved, "Solved");
     kani::cover!(st == SolverStatus::NumericalError, "NumericalError");
